@@ -38,7 +38,7 @@ def run(ctx):
     model(ctx)
     model_c(ctx, thorough)
     full = None
-    some = ["--", "boot"]
+    some = ["--", "boot", "const"]
     if thorough:
         cfgs = [(be, k, (128, 80, 128), full if k == "optim" or be.startswith("spqlios") else some) for be in BACKENDS for k in ("optim", "debug")]
     else:
